@@ -392,6 +392,28 @@ theorem storeOut_left_suffix (es : List Entry) : ∃ pre, es = pre ++ (storeOut 
       rw [← hpre]
     · exact ⟨[e], by simp [storeOut, hok]⟩
 
+/-! ### `Store.Store` with disk-buffer faults: the no-fault case is `storeOut` -/
+
+theorem storeOutF_nil (es : List Entry) : storeOutF [] es = storeOut es := by
+  induction es with
+  | nil => rfl
+  | cons e es ih => simp [storeOutF, storeOut, cutOf, emitCut, ih]
+
+theorem storeF_nil (s : Store) (order : List Nat) : s.storeF order [] = s.store order := by
+  simp [Store.storeF, Store.store, storeOutF_nil]
+
+theorem storeOutF_left_suffix (faults : List (Nat × Nat)) (es : List Entry) :
+    ∃ pre, es = pre ++ (storeOutF faults es).2.1 := by
+  induction es with
+  | nil => exact ⟨[], rfl⟩
+  | cons e es ih =>
+    obtain ⟨pre, hpre⟩ := ih
+    by_cases hok : (emitCut e (cutOf faults e.ref)).2 = true
+    · refine ⟨e :: pre, ?_⟩
+      simp only [storeOutF, hok, if_true, List.cons_append]
+      rw [← hpre]
+    · exact ⟨[e], by simp [storeOutF, hok]⟩
+
 /-! ### Histories -/
 
 /-- What a recording call was given. -/
@@ -416,9 +438,10 @@ theorem Entry.update_loaded (e : Entry) : e.update.loaded = e.loaded := by
 def Op.update? : Op → Option Update
   | .record k u f recs _ => some ⟨k, u, f, recs⟩
   | .delta u f recs _ _ => some ⟨.vuln, u, f, recs⟩
-  | .store _ => none
+  | .store _ _ => none
+  | .failed k u f recs => some ⟨k, u, f, recs⟩
 
-/-- A history of recording calls only. -/
+/-- A history of recording calls only (failed ones included). -/
 def RecOnly (ops : List Op) : Prop := ∀ op ∈ ops, op.update?.isSome = true
 
 /-- The updates of the recording calls that returned a ref, in call order. -/
@@ -496,23 +519,24 @@ theorem inv_step (w : World) (op : Op) (h : Inv w) : Inv (step w op).1 := by
       obtain ⟨h1, h2⟩ := inv_append w.store ⟨r, u, f, .vuln, recs⟩ h.distinct h.nonNil hf hr
       exact ⟨h1, h2⟩
     · rw [he]; exact h
-  | store order =>
-    simp only [step, Store.store]
+  | store order faults =>
+    simp only [step, Store.storeF]
     cases ha : arrange w.store.entries order with
     | none => exact h
     | some es =>
       have hperm := arrange_perm order _ _ h.distinct ha
       have hdes : DistinctRefs es := distinct_perm hperm h.distinct
-      obtain ⟨pre, hpre⟩ := storeOut_left_suffix es
+      obtain ⟨pre, hpre⟩ := storeOutF_left_suffix faults es
       simp only
       constructor
-      · show DistinctRefs (storeOut es).2.1
-        have : DistinctRefs (pre ++ (storeOut es).2.1) := hpre ▸ hdes
+      · show DistinctRefs (storeOutF faults es).2.1
+        have : DistinctRefs (pre ++ (storeOutF faults es).2.1) := hpre ▸ hdes
         exact (List.pairwise_append.1 this).2.1
       · intro e he
-        have he' : e ∈ (storeOut es).2.1 := he
+        have he' : e ∈ (storeOutF faults es).2.1 := he
         have : e ∈ es := by rw [hpre]; exact List.mem_append_right _ he'
         exact h.nonNil e (hperm.mem_iff.1 this)
+  | failed k u f recs => exact h
 
 theorem inv_run (ops : List Op) : Inv (Sm.run step World.init ops) :=
   Sm.invariant_run (Inv := Inv) (fun w op h => inv_step w op h) ops World.init inv_init
@@ -542,7 +566,8 @@ theorem run_recOnly (ops : List Op) : ∀ (w : World), RecOnly ops →
       rcases record_entries w.store .vuln u f recs cands with ⟨r, used, he, _, _⟩ | he
       · rw [he]; simp [Entry.update]
       · rw [he]; simp
-    | store order => simp [Op.update?] at hop
+    | store order faults => simp [Op.update?] at hop
+    | failed k u f recs => simp [step, Op.update?]
 
 /-- Store then Load after a history of recording calls: the loader yields, in
     the order the map was visited, exactly the non-empty recorded updates. -/
@@ -600,8 +625,17 @@ theorem store_order_exists (ops : List Op) :
 theorem render_append (a b : List Entry) : render (a ++ b) = render a ++ render b := by
   simp [render]
 
-/-- Every recording call's records fit the scanner buffer. -/
-def FitOps (ops : List Op) : Prop := ∀ op ∈ ops, ∀ u, op.update? = some u → ∀ r ∈ u.recs, r.fits = true
+/-- What a call must satisfy for `Store` never to fail: the records of a call
+    that is recorded fit the scanner buffer, and no disk buffer is damaged when
+    it is read back. -/
+def Op.fitOk : Op → Prop
+  | .record _ _ _ recs _ => ∀ r ∈ recs, r.fits = true
+  | .delta _ _ recs _ _ => ∀ r ∈ recs, r.fits = true
+  | .store _ faults => faults = []
+  | .failed _ _ _ _ => True
+
+/-- Every recorded record fits the scanner buffer; every disk buffer reads back. -/
+def FitOps (ops : List Op) : Prop := ∀ op ∈ ops, op.fitOk
 
 /-- No recording call is handed a uuid that some line already written carries
     (uuid.New() never repeats a value it produced before an earlier flush). -/
@@ -676,10 +710,10 @@ theorem flushed_record (F : List Entry) (w : World) (k : Kind) (u f : String) (r
     exact ⟨h, by simp [List.filter]⟩
 
 theorem flushed_store (F : List Entry) (w : World) (order : List Nat) (h : Flushed F w) :
-    ∃ F', Flushed F' (step w (.store order)).1 ∧
-      ((F' ++ (step w (.store order)).1.store.entries.filter nonEmpty).map Entry.update).Perm
+    ∃ F', Flushed F' (step w (.store order [])).1 ∧
+      ((F' ++ (step w (.store order [])).1.store.entries.filter nonEmpty).map Entry.update).Perm
         ((F ++ w.store.entries.filter nonEmpty).map Entry.update) := by
-  simp only [step, Store.store]
+  simp only [step, storeF_nil, Store.store]
   have hdE : DistinctRefs w.store.entries := (List.pairwise_append.1 h.distinct).2.1
   cases ha : arrange w.store.entries order with
   | none => exact ⟨F, h, List.Perm.refl _⟩
@@ -729,7 +763,7 @@ theorem flushed_run (ops : List Op) : ∀ (w : World) (F : List Entry), Flushed 
       cases op with
       | record k u f recs cands =>
         obtain ⟨h1, h2⟩ := flushed_record F w k u f recs cands h
-          (hfit (.record k u f recs cands) (by simp) ⟨k, u, f, recs⟩ rfl) hnr1
+          (hfit (.record k u f recs cands) (by simp)) hnr1
         exact ⟨F, h1, by rw [h2]⟩
       | delta u f recs del cands =>
         have hd : step w (.delta u f recs del cands) = step w (.record .vuln u f recs cands) := by
@@ -738,11 +772,15 @@ theorem flushed_run (ops : List Op) : ∀ (w : World) (F : List Entry), Flushed 
           simp [returned, hd, Op.update?]
         rw [hd, hr]
         obtain ⟨h1, h2⟩ := flushed_record F w .vuln u f recs cands h
-          (hfit (.delta u f recs del cands) (by simp) ⟨.vuln, u, f, recs⟩ rfl) (by rw [← hd]; exact hnr1)
+          (hfit (.delta u f recs del cands) (by simp)) (by rw [← hd]; exact hnr1)
         exact ⟨F, h1, by rw [h2]⟩
-      | store order =>
+      | store order faults =>
+        have hf0 : faults = [] := hfit (.store order faults) (by simp)
+        subst hf0
         obtain ⟨F', h1, h2⟩ := flushed_store F w order h
         exact ⟨F', h1, by simpa [returned, Op.update?] using h2⟩
+      | failed k u f recs =>
+        exact ⟨F, h, by simp [step, returned, Op.update?]⟩
     obtain ⟨F1, hF1, hp1⟩ := key
     obtain ⟨F', hF', hp'⟩ := ih (step w op).1 F1 hF1 hfit' hnr2
     refine ⟨F', hF', ?_⟩
